@@ -833,11 +833,19 @@ class Model:
             variables = []
             values = []
 
+            # Defining expression of the variables eliminated so far, by name
+            eliminated = {}
+
             def get_derivative(expr):
                 if expr.is_constant():
                     return 0.0
                 elif expr.is_symbolic():
-                    if expr.name() in states:
+                    if expr.name() in eliminated:
+                        # Eliminated by an earlier equation (and therefore no
+                        # longer in states or alg_states): it varies the way
+                        # its defining expression does
+                        return get_derivative(eliminated[expr.name()])
+                    elif expr.name() in states:
                         return der_states[expr.name()].symbol
                     elif expr.name() in alg_states:
                         # This algebraic state must now become a differentiated state.
@@ -880,6 +888,7 @@ class Model:
 
                     variables.append(variable)
                     values.append(value)
+                    eliminated[variable.name()] = value
 
                     # Skip this equation
                     continue
